@@ -592,7 +592,20 @@ func c09ErrCheck(c *Ctx, prog *load.Program) {
 				}
 				okSite := false
 				for _, a := range allowed {
-					if a.caller == caller && a.callee == callee {
+					if a.callee != callee {
+						continue
+					}
+					part := a.caller == caller
+					if !part {
+						// an unexported helper that is never used as a value and whose every call chain starts in the
+						// enumerated caller is part of it (the guard that makes the call infallible is in that caller)
+						root := fn
+						for root.Parent() != nil {
+							root = root.Parent()
+						}
+						part, _ = onlyCalledFrom(prog, root, map[string]bool{a.caller: true}, 0)
+					}
+					if part {
 						okSite = true
 						used[a.caller+"|"+a.callee] = true
 					}
